@@ -231,6 +231,14 @@ def tstep (s : TState) (ws : List String) : TState × String :=
         run (.foreach (d = "fwd") (fun i _ _ => if (i : Int) = k then stopValue k else 0))
       | none => bad
     | ["clear"] => run .clear
+    | ["alt"] =>
+      -- the harness addresses the other OBJECT from now on (no library call): same exchange of the pair
+      if isRb then
+        ({ s with rb := s.rb2, rbn := s.rbn2, rb2 := s.rb, rbn2 := s.rbn },
+         "ok | " ++ dumpTree kind s.hash s.rb2 s.rbn2)
+      else
+        ({ s with bt := s.bt2, btn := s.btn2, bt2 := s.bt, btn2 := s.btn },
+         "ok | " ++ dumpTree kind s.hash s.bt2 s.btn2)
     | ["swap"] =>
       -- `cstl_bintree_swap` / `cstl_rbtree_swap`: the two headers trade places (TreeL.Tie3.swap_tie)
       if isRb then
